@@ -564,3 +564,96 @@ def inlined_body(prog, key, stop=lambda k: False, maxdepth=4, max_callee_blocks=
     fn["promoted"] = prom
     fn["inlined"] = sorted(set(inl))
     return Body(fn)
+
+
+def thread_variant_joins(m, local_enums, max_chain=6):
+    """Jump threading over a spliced stage that answers with a private enum: the stage's arms build `Answer::A(..)`, `Answer::B(..)` and
+    meet in a join, and the caller at once matches on the answer.  Every path that builds the answer with a literal variant and reaches
+    the match through straight `goto` blocks (which only move the answer along) gets a copy of those blocks ending in a jump to the
+    arm of that variant — the program is unchanged (the match's outcome on such a path is the variant just built), and the arm that consumes
+    an answer is dominated again by the look-up that produced it.  Only enums of the crate without explicit discriminants
+    (`local_enums`); returns the number of paths threaded."""
+    import copy
+    blocks = m["blocks"]
+    preds = {}
+    for i, b in enumerate(blocks):
+        t = b["term"]
+        if t["k"] == "goto":
+            preds.setdefault(t["target"], []).append(i)
+
+    def writes(st, l):
+        return st["k"] == "assign" and st["place"]["l"] == l
+
+    def borrows_mut(st, l):
+        return st["k"] == "assign" and st["rv"]["k"] == "ref" and st["rv"].get("mut") and st["rv"]["place"]["l"] == l
+
+    def back(stmts, tracked):
+        """Scan statements backwards: ('variant', vidx) | ('open', tracked') | None (give up)."""
+        for st in reversed(stmts):
+            if borrows_mut(st, tracked):
+                return None
+            if not writes(st, tracked):
+                continue
+            if st["place"]["p"]:
+                return None
+            rv = st["rv"]
+            if rv["k"] == "aggregate" and rv.get("agg") == "adt" and rv.get("adt") in local_enums and "vidx" in rv:
+                return ("variant", rv["vidx"])
+            src = rv.get("op") if rv["k"] == "use" or (rv["k"] == "cast" and rv.get("kind") == "Subtype") else None
+            if src is None or src["k"] not in ("move", "copy") or src["place"]["p"]:
+                return None
+            tracked = src["place"]["l"]
+        return ("open", tracked)
+
+    threaded = 0
+    for s_idx in range(len(blocks)):
+        S = blocks[s_idx]
+        t = S["term"]
+        if t["k"] != "switch" or t["discr"]["k"] == "const" or t["discr"]["place"]["p"]:
+            continue
+        dl = t["discr"]["place"]["l"]
+        dpos = [j for j, st in enumerate(S["stmts"]) if writes(st, dl)]
+        if len(dpos) != 1 or S["stmts"][dpos[0]]["rv"]["k"] != "discr" or S["stmts"][dpos[0]]["rv"]["place"]["p"]:
+            continue
+        if any(writes(st, dl) for j, b in enumerate(blocks) if j != s_idx for st in b["stmts"]):
+            continue
+        r0 = back(S["stmts"][:dpos[0]], S["stmts"][dpos[0]]["rv"]["place"]["l"])
+        if r0 is None or r0[0] != "open":
+            continue
+        # chains P → B1 → … → S of goto blocks
+        work = [([s_idx], r0[1])]
+        found = []
+        while work:
+            chain, tracked = work.pop()
+            if len(chain) > max_chain:
+                continue
+            for p in preds.get(chain[0], []):
+                if p in chain:
+                    continue
+                r = back(blocks[p]["stmts"], tracked)
+                if r is None:
+                    continue
+                if r[0] == "variant":
+                    found.append((p, chain, r[1]))
+                else:
+                    work.append(([p] + chain, r[1]))
+        for (p, chain, vidx) in found:
+            tgt = None
+            for val, tb in t["targets"]:
+                if val == vidx:
+                    tgt = tb
+            if tgt is None:
+                tgt = t.get("otherwise")
+            if tgt is None:
+                continue
+            nxt = tgt
+            for c in reversed(chain):
+                nb = {"stmts": copy.deepcopy(blocks[c]["stmts"]), "term": {"k": "goto", "target": nxt, "threaded": True, "loc": blocks[c]["term"].get("loc")}}
+                for k_ in blocks[c]:
+                    if k_ not in nb:
+                        nb[k_] = copy.deepcopy(blocks[c][k_])
+                blocks.append(nb)
+                nxt = len(blocks) - 1
+            blocks[p]["term"] = dict(blocks[p]["term"], target=nxt)
+            threaded += 1
+    return threaded
